@@ -182,6 +182,20 @@ KINDS = {
     "tag.sources": link_kind(hs_tag, lambda b: b.tags["T"], "sources", lambda b: b.sources, mk_src),
     "data_array.sources": link_kind(hs_da, lambda b: b.data_arrays["D"], "sources", lambda b: b.sources, mk_src),
 }
+
+
+def mk_nested_src(b, nm):
+    """the link target is a CHILD of the top-level source "S"; a top-level source with the same name exists too"""
+    if "S" not in b.sources:
+        b.create_source("S", "t")
+    b.sources["S"].create_source(nm, "t")
+    if nm != "S":
+        b.create_source(nm, "t")          # decoy of the same name at the top level (never linked)
+
+
+for _holder, _hs, _hget in (("group", hs_group, lambda b: b.groups["G"]), ("tag", hs_tag, lambda b: b.tags["T"]),
+                            ("multi_tag", hs_mtag, lambda b: b.multi_tags["M"]), ("data_array", hs_da, lambda b: b.data_arrays["D"])):
+    KINDS["%s.sources@nested" % _holder] = link_kind(_hs, _hget, "sources", lambda b: b.sources["S"].sources, mk_nested_src)
 DEEP_KINDS = ["file.blocks", "block.data_arrays", "section.sections@1"]
 
 
